@@ -82,7 +82,7 @@ PROPS = {
         "projection": "dials, frames per connection with the presented session, back-offs, after-reconnect / give-up callbacks",
         "mismatch_is_input": True,
         "timeout": {"quick": 1500, "thorough": 6000},
-        "level_text": "Coq theorems on the recovery protocol (Model/Recovery.v: reconnecting/reconnect/reconnectDial/auth/isAuthExpired/give-up) for every sequence of per-attempt outcomes (unbounded) and every configuration: the stored session is presented (RECONNECT) exactly while unexpired, an expired one leads to AUTH with a fresh token; a session rejected as unauthenticated falls back to AUTH on the same connection; failed attempts are retried after the back-off until one succeeds or the budget of consecutive failures is spent; then exactly one give-up report; the after-reconnect callback runs exactly once, last, only after a success; every success resets the counters; the current connection is closed before each dial and recovery frames travel only on the connection that attempt created. Lifecycle model (Model/Life.v, all interleavings): C08_every_loss_is_recovered - in every reachable state of an unclosed client either a connection is open or a recovery is running, including a loss of the connection a still-finishing recovery has just installed (recorded as pending, the loop starts over); a recovery at its loop head always has a next step. Tie: per-attempt outcome scripts against the real client (drop, refused dials, ok / unauthenticated / error status / dropped / silence answers, expired or not, getter or not, MaxReconnect 0..3) compared with the model; direct oracles for serves-again, old connections closed, callbacks; scenario 'new connection dropped while the after-reconnect callback runs' on TCP and WebSocket with the keepalive far away, replayed by the lifecycle model.",
+        "level_text": "Coq theorems on the recovery protocol (Model/Recovery.v: reconnecting/reconnect/reconnectDial/auth/isAuthExpired/give-up) for every sequence of per-attempt outcomes (unbounded) and every configuration: the stored session is presented (RECONNECT) exactly while unexpired, an expired one leads to AUTH with a fresh token; a session rejected as unauthenticated falls back to AUTH on the same connection; failed attempts are retried after the back-off until one succeeds or the budget of consecutive failures is spent; then exactly one give-up report; the after-reconnect callback runs exactly once, last, only after a success; every success resets the counters; the current connection is closed before each dial and recovery frames travel only on the connection that attempt created. Lifecycle model (Model/Life.v, all interleavings): C08_every_loss_is_recovered - in every reachable state of an unclosed client either a connection is open or a recovery is running, including a loss of the connection a still-finishing recovery has just installed (recorded as pending, the loop starts over); a recovery at its loop head always has a next step. Tie: per-attempt outcome scripts against the real client (drop, refused dials, ok / unauthenticated / error status / dropped / silence answers, expired or not, getter or not, MaxReconnect 0..3) compared with the model; direct oracles for serves-again, old connections closed, callbacks; scenarios 'new connection dropped while the after-reconnect callback runs' and 'connection dropped before the client has registered its close callback' (dial.before-onclose gate; re-dial and first Dial) on TCP and WebSocket with the keepalive far away, replayed by the lifecycle model.",
         "level_note": "Trusted: kernel, extraction, harness. Attempt-level model: the interleaving of the recovery goroutine with user calls and the other goroutines is covered by C06/C14 scenarios, not by these theorems. Loss causes other than peer drop (keepalive timeout, close packet, undecodable frame) enter the same loop and are exercised in C15/C06 scenarios.",
         "assumptions": ["the clock decides isAuthExpired (expires - 10 s)", "token getter and dialer are environment"],
         "modelled": "client.reconnecting (retry loop), reconnect, reconnectDial, auth, isAuthExpired, Close on hit-max",
